@@ -218,3 +218,42 @@ Definition build_pages (f : frame) (b : body) (st : strategy) (pages : list Z) :
                        end;
           pc_slice_start := 0 |}]
     end) uniq.
+
+(* ---- C04 predicate on a page assignment (evaluated on the implementation's output) ----
+   pages: page number of every row, in row order.  A break may fall before row i only if a grouping
+   rule forces it or the row no longer fits; a forced break must fall. *)
+Fixpoint check_assign_from (avail : Z) (new_page : bool) (ms : list rowmeta) (pages : list Z)
+         (prev cur : Z) : bool :=
+  match ms, pages with
+  | [], [] => true
+  | m :: ms', p :: ps =>
+    let force := rm_ss m || (new_page && rm_gs m) in
+    let over := (avail <? cur + rm_total m)%Z in
+    if Z.eqb p prev
+    then negb (force && (0 <? cur)%Z) && check_assign_from avail new_page ms' ps p (cur + rm_total m)%Z
+    else Z.eqb p (prev + 1) && (force || over) && check_assign_from avail new_page ms' ps p (rm_total m)
+  | _, _ => false
+  end.
+
+Definition check_assign (avail : Z) (new_page : bool) (ms : list rowmeta) (pages : list Z) : bool :=
+  match ms, pages with
+  | [], [] => true
+  | m :: ms', p :: ps => Z.eqb p 1 && check_assign_from avail new_page ms' ps 1 (rm_total m)
+  | _, _ => false
+  end.
+
+(* the implementation's own accounting: every page within the available rows, or a single row *)
+Fixpoint page_sums (ms : list rowmeta) (pages : list Z) (cur_page : Z) (sum : Z) (count : nat)
+  : list (Z * nat) :=
+  match ms, pages with
+  | m :: ms', p :: ps =>
+    if Z.eqb p cur_page then page_sums ms' ps cur_page (sum + rm_total m)%Z (S count)
+    else (sum, count) :: page_sums ms' ps p (rm_total m) 1
+  | _, _ => [(sum, count)]
+  end.
+Definition check_fill (avail : Z) (ms : list rowmeta) (pages : list Z) : bool :=
+  match ms, pages with
+  | m :: ms', p :: ps =>
+    all_b (fun sc => (fst sc <=? avail)%Z || Nat.eqb (snd sc) 1) (page_sums ms' ps p (rm_total m) 1)
+  | _, _ => true
+  end.
